@@ -1,12 +1,14 @@
 import SynKitModel.ITS
 import SynKitProofs.ITSLemmas
+import SynKitProofs.ITSFreeLemmas
 /-!
 # C02 — the reaction centre is exactly the set of changed bonds; the context grows monotonically
 
 Property theorems only (helper lemmas: `SynKitProofs/ITSLemmas.lean`).  They are about the model
 `SynKit.ITS.getRc` (of `get_rc` with its default options: `disconnected=False`, `keep_mtg=False`,
 keys `element, charge, typesGH, atom_map`), `expand` (`find_nearest_neighbors`) and `extractK`
-(`RadiusExpand.extract_k`, radii ≥ 0).  `WFits I` is an ITS graph as `ITSConstruction.construct`
+(`RadiusExpand.extract_k`, radii ≥ 0), `extractFreeAdj` / `extractFree` (`extract_k(its, -1)`, the free-radius mode with
+`longest_radius_extension`) and `unequalOrderEdges` (`find_unequal_order_edges`).  `WFits I` is an ITS graph as `ITSConstruction.construct`
 builds it (simple graph, `typesGH` on every atom, `order` pair and `standard_order` = difference).
 -/
 namespace SynKit.ITS
@@ -121,6 +123,89 @@ renumbered ITS is the `π`-image of the centre (hence isomorphic to it via `π`)
 theorem getRc_relabel (o : RcOpts) (I : LGraph) (π : Nat → Nat) (hπ : Function.Injective π) :
     getRc o (I.relabel π) = (getRc o I).relabel π := getRc_relabel' hπ o I
 
+/-! ## Large radii, the free-radius mode `extract_k(its, -1)`, `find_unequal_order_edges` -/
+
+/-- **C02, the context stops growing**: on a simple graph every radius `k ≥ |V|` gives the very same
+context as radius `|V|`, and its atoms are exactly the atoms connected to a centre atom (a walk of any
+length `d`, in the sense of `mem_extractK_iff_dist`). -/
+theorem extractK_stabilises (I : LGraph) (hI : I.WF) (k : Nat) (hk : I.nodes.length ≤ k) :
+    extractK I k = extractK I I.nodes.length ∧
+    ∀ n, n ∈ (extractK I I.nodes.length).ids ↔ ∃ s ∈ (getRc {} I).ids, ∃ d, DistLE I s d n := by
+  refine ⟨extractK_eq_of_ge hI hk, fun n => ?_⟩
+  rw [mem_extractK_card_iff hI]
+  constructor
+  · rintro ⟨d, s, hs, hd⟩; exact ⟨s, hs, d, hd⟩
+  · rintro ⟨s, hs, d, hd⟩; exact ⟨d, s, hs, hd⟩
+
+/-- **Free-radius mode, as coded** (any graph, any NetworkX adjacency order `adj`): `extract_k(its, -1)`
+is the radius-`r` context for `r` = the number of atoms of the path `longest_radius_extension` returns;
+`r = 0` exactly when the centre is empty (then the result is the empty graph), otherwise `1 ≤ r ≤ |V|`;
+the result contains every centre atom. -/
+theorem extractFree_radius (I : LGraph) (hI : I.WF) (adj : Nat → List Nat) :
+    extractFreeAdj adj I = extractK I (freeRadiusAdj adj I) ∧
+    ((getRc {} I).ids = [] → freeRadiusAdj adj I = 0 ∧ extractFreeAdj adj I = {}) ∧
+    ((getRc {} I).ids ≠ [] → 1 ≤ freeRadiusAdj adj I) ∧
+    freeRadiusAdj adj I ≤ I.nodes.length ∧
+    (∀ n ∈ (getRc {} I).ids, n ∈ (extractFreeAdj adj I).ids) := by
+  refine ⟨extractFreeAdj_eq_extractK adj I, fun h => ⟨freeRadius_zero adj I h, extractFreeAdj_of_nil adj h⟩,
+    freeRadius_pos adj I, freeRadius_le hI adj, ?_⟩
+  intro n hn
+  exact (mem_ids_induced I _ n).2 ⟨getRc_ids_sub hI {} rfl n hn, (mem_expand_iff I _ _ n).2 ⟨n, hn, DistLE.refl _⟩⟩
+
+/-- **Free-radius mode = the connected component(s) of the centre.**  On a simple graph in which every
+bond is either changed (`standard_order` a non-zero number) or crossable by the search
+(`standard_order == 0`) — `StdTotal`, in particular on every well-formed ITS — and for every adjacency
+order `adj` that lists all neighbours: the radius the code picks exceeds the distance of every atom
+connected to the centre, so `extract_k(its, -1)` is the stabilised context of `extractK_stabilises`
+(the same graph, whatever the tie-breaks of the search), whose atoms are exactly the atoms connected to
+a centre atom.  Without `StdTotal` this fails (example `C02Example.J` below). -/
+theorem extractFree_spec (I : LGraph) (hI : I.WF) (hz : StdTotal I) (adj : Nat → List Nat)
+    (hadj : ∀ u v, I.hasEdge u v = true → v ∈ adj u) :
+    extractFreeAdj adj I = extractK I I.nodes.length ∧
+    (∀ n, n ∈ (extractFreeAdj adj I).ids ↔ ∃ s ∈ (getRc {} I).ids, ∃ d, DistLE I s d n) ∧
+    (∀ s ∈ (getRc {} I).ids, ∀ d n, DistLE I s d n → ∃ s' ∈ (getRc {} I).ids, DistLE I s' (freeRadiusAdj adj I - 1) n) := by
+  have h1 := extractFreeAdj_eq_card hI hz hadj
+  refine ⟨h1, fun n => ?_, ?_⟩
+  · rw [h1]; exact (extractK_stabilises I hI _ (Nat.le_refl _)).2 n
+  · intro s hs d n hd
+    obtain ⟨d', hd'⟩ := exists_lvl (I := I) (S := (getRc {} I).ids) ⟨d, s, hs, hd⟩
+    have := freeRadius_gt_lvl hI hz hadj hd'
+    exact hd'.1.mono (by omega)
+
+/-- `extractFree_spec` for a well-formed ITS and the adjacency order of the edge list; the centre is a
+sub-graph of the result (atoms, bonds, labels). -/
+theorem extractFree_spec_wfits (I : LGraph) (hI : WFits I) :
+    extractFree I = extractK I I.nodes.length ∧
+    (∀ n, n ∈ (extractFree I).ids ↔ ∃ s ∈ (getRc {} I).ids, ∃ d, DistLE I s d n) ∧
+    Sub (getRc {} I) (extractFree I) := by
+  obtain ⟨h1, h2, _⟩ := extractFree_spec I hI.1 (StdTotal_of_WFits hI) I.neighbors (neighbors_complete I)
+  refine ⟨h1, h2, ?_⟩
+  apply getRc_sub_induced hI
+  intro n hn
+  exact (mem_expand_iff I _ _ n).2 ⟨n, hn, DistLE.refl _⟩
+
+/-- **Free-radius mode, centre = whole graph**: the result is the ITS itself (any adjacency order). -/
+theorem extractFree_whole (I : LGraph) (hI : I.WF) (adj : Nat → List Nat)
+    (hall : ∀ n ∈ I.ids, n ∈ (getRc {} I).ids) : extractFreeAdj adj I = I := extractFreeAdj_whole hI adj hall
+
+/-- **The recursion bound of the model is not a restriction**: with `|V|` units of fuel the search
+`dfs` of `longest_radius_extension` returns what it returns with any larger bound. -/
+theorem dfsLongest_enough_fuel (I : LGraph) (hI : I.WF) (adj : Nat → List Nat) (c : Nat) (vis : List Nat)
+    (hc : c ∈ I.ids) (hv : c ∉ vis) (k : Nat) :
+    dfsLongest (freeSteps I adj) (I.nodes.length + k) c vis [c] =
+      dfsLongest (freeSteps I adj) I.nodes.length c vis [c] := dfsLongest_fuel_stable hI adj c vis hc hv k
+
+/-- **`find_unequal_order_edges`**: (1) as coded, on any graph: the end points of the bonds that pass the
+code's test (`order` a tuple whose two entries differ and `standard_order != 0`); (2) on a well-formed
+ITS (`standard_order` = difference of the order pair): exactly the atoms of the bonds whose two orders
+differ; (3) the atoms of the centre `get_rc` are these atoms plus the hydrogens of the H–H bonds. -/
+theorem unequalOrderEdges_spec (I : LGraph) :
+    (∀ n, n ∈ unequalOrderEdges I ↔ ∃ e ∈ I.edges, unequalEdge e.2.2 = true ∧ (n = e.1 ∨ n = e.2.1)) ∧
+    (WFits I → ∀ n, n ∈ unequalOrderEdges I ↔ ∃ v a, I.edge? n v = some a ∧ changed a) ∧
+    (WFits I → ∀ n, n ∈ (getRc {} I).ids ↔
+        n ∈ unequalOrderEdges I ∨ ∃ v, I.hasEdge n v = true ∧ isHH I n v = true) :=
+  ⟨mem_unequalOrderEdges_iff I, fun h => unequalOrderEdges_iff_changed h, fun h => getRc_ids_iff_unequal h⟩
+
 /-- The property at full strength over the model (Appendix A of DESIGN.md), assembled. -/
 def C02.FullStatement : Prop :=
   ∀ I : LGraph, WFits I →
@@ -185,6 +270,39 @@ example : (getRc {} { nodes := [nd "C" 1, nd "O" 2], edges := [(1, 2, [("order",
   decide
 /-- Renumbering instance. -/
 example : getRc {} (I.relabel (· * 3 + 1)) = (getRc {} I).relabel (· * 3 + 1) := by decide
+
+/-- Free-radius mode on the esterification ITS: every bond is changed or crossable, the code picks the
+radius 3 (path 4–5–7), the result is the whole ITS = the stabilised context. -/
+example : StdTotal I := by decide
+example : freeRadius I = 3 := by decide
+example : (extractFree I).ids = [1, 2, 3, 4, 5, 6, 7, 8, 9] := by decide
+example : extractFree I = extractK I I.nodes.length := by decide
+/-- `find_unequal_order_edges`: the atoms of the four changed bonds; the centre has the H–H pair 8, 9 on top. -/
+example : unequalOrderEdges I = [1, 3, 4, 6] := by decide
+example : unequalDefined I = true := by decide
+
+/-- `StdTotal` is needed in `extractFree_spec`: bond 2–3 carries no `standard_order`, the search cannot
+cross it, the code picks radius 1 and returns atoms 1–3 although 4 and 5 are connected to the centre. -/
+def J : LGraph :=
+  { nodes := [nd "C" 1, nd "O" 2, nd "C" 3, nd "C" 4, nd "C" 5]
+    edges := [ed 1 2 2 0, (2, 3, [("order", .tup [.num 2, .num 2])]), ed 3 4 2 2, ed 4 5 2 2] }
+
+example : J.WF ∧ ¬ StdTotal J := by decide
+example : freeRadius J = 1 ∧ (extractFree J).ids = [1, 2, 3] ∧ (extractK J J.nodes.length).ids = [1, 2, 3, 4, 5] := by decide
+
+/-- The radius depends on the adjacency order (ties of the search feed `visited_overall`): 6 with the
+edge-list order, 5 with the reversed one — the returned context is the same (`extractFree_spec`). -/
+def T : LGraph :=
+  { nodes := [nd "C" 1, nd "C" 2, nd "C" 3, nd "C" 4, nd "C" 5, nd "C" 6, nd "C" 7, nd "C" 8, nd "C" 9, nd "C" 10, nd "C" 11]
+    edges := [ed 1 2 2 0, ed 1 3 2 2, ed 3 4 2 2, ed 4 5 2 2, ed 5 6 2 2, ed 1 9 2 2, ed 9 8 2 2, ed 8 7 2 2, ed 7 2 2 2,
+              ed 9 10 2 2, ed 10 11 2 2] }
+
+example : freeRadius T = 6 ∧ freeRadiusAdj (fun v => (T.neighbors v).reverse) T = 5 := by decide
+example : (extractFreeAdj (fun v => (T.neighbors v).reverse) T).ids = (extractFree T).ids ∧ (extractFree T).ids = T.ids := by decide
+/-- Degenerate cases: an empty centre gives the empty graph; a centre on every atom gives the ITS back. -/
+example : extractFree { nodes := [nd "C" 1, nd "O" 2], edges := [ed 1 2 2 2] } = {} := by decide
+example : extractFree { nodes := [nd "C" 1, nd "O" 2], edges := [ed 1 2 2 0] } =
+    { nodes := [nd "C" 1, nd "O" 2], edges := [ed 1 2 2 0] } := by decide
 
 end C02Example
 
